@@ -17,7 +17,10 @@ use yasna::Tag;
 fn record(em: &mut Emitter, line: String, obs: Obs) { em.case(&line, move || obs); }
 fn guarded<F: FnOnce() -> Obs>(f: F) -> Obs {
     crate::alloc_count::reset();
-    match catch_unwind(AssertUnwindSafe(f)) { Ok(o) => o, Err(_) => Obs::new("P".into()).viol("panic").tag("panic") }
+    let o = match catch_unwind(AssertUnwindSafe(f)) { Ok(o) => o, Err(_) => Obs::new("P".into()).viol("panic").tag("panic") };
+    // memory in proportion to the bytes received: the inputs of these cases are below 70 KiB
+    let peak = crate::alloc_count::max();
+    if peak > (4 << 20) { o.viol(&format!("allocation request of {} bytes", peak)) } else { o }
 }
 
 /// what yasna makes of a connect-response (the BER layer is observed, not modelled)
@@ -237,6 +240,32 @@ pub fn generate_c05(thorough: bool, seed: u64, part: (usize, usize), em: &mut Em
         for extra in &[1usize, 2, 100, 60000] { let mut f = framed.clone(); let n = f.len() + extra; f[2] = (n >> 8) as u8; f[3] = n as u8; emit(em, format!("x224_stream 3 1 {}", hex(&f))); }
         // the same cuts on a transport with a read timeout: the server stalls, the read fails, the connect must fail
         for cut in 0..framed.len() { for k in &["w", "t"] { emit(em, format!("x224_stream 3 1 {} {}", if cut == 0 { "-".to_string() } else { hex(&framed[..cut]) }, k)); } }
+    }
+    // slow-path frames shorter than the X.224 data header (TPKT length 4..6), or with a damaged header, where the MCS
+    // connect response / attach confirm / join confirm / licence is expected: an error, never a panic
+    {
+        let follow = refsrv::x224_data(&[0xaa, 0xbb]);
+        for len in 4..=10usize { for fill in &[0x00u8, 0x02, 0xf0, 0xff] { for tail in &[vec![], follow.clone()] {
+            let mut d = vec![3u8, 0, 0, len as u8];
+            let body: Vec<u8> = match *fill { 0x02 => [2u8, 0xf0, 0x80, 1, 2, 3].iter().cloned().take(len - 4).collect(), f => vec![f; len - 4] };
+            d.extend(body); d.extend_from_slice(tail);
+            for k in &["-", "0,0,0,0,0,0,0,0,0,0,0,0"] {
+                let line = format!("x224_read 2 {} {}", hex(&d), k);
+                let toks: Vec<&str> = line.split(' ').collect(); crate::props::c13::run_case(&toks, em);
+            }
+        } } }
+    }
+    // SC_SECURITY blocks carrying the optional serverRandomLen / serverCertLen (and data) with any values,
+    // SC_CORE / SC_NET blocks longer than the client needs: parsed or refused, without allocating what they announce
+    for extra in &[vec![], vec![0xffu8, 0xff, 0xff, 0xff], vec![0, 0, 0, 0x80, 0xf0, 0xff, 0xff, 0xff], vec![0x20, 0, 0, 0, 0x10, 0, 0, 0], vec![0xff, 0xff, 0xff, 0x7f, 0xff, 0xff, 0xff, 0x7f, 1, 2, 3, 4],
+                   vec![0x00, 0x00, 0x00, 0x10, 0x00, 0x00, 0x00, 0x10]] {
+        for (m, l) in &[(0u32, 0u32), (2, 2), (0xffffffff, 0xffffffff)] {
+            let sec = refsrv::cat(&[&refsrv::le32(*m), &refsrv::le32(*l), extra]);
+            let blocks = refsrv::cat(&[&[0x01, 0x0c, 0x0c, 0x00], &refsrv::le32(0x80004), &refsrv::le32(1),
+                &[0x02, 0x0c], &refsrv::le16((sec.len() + 4) as u16), &sec, &[0x03, 0x0c, 0x08, 0x00, 0xeb, 0x03, 0x00, 0x00]]);
+            let tail = refsrv::cat(&[&[0x14, 0x76, 0x0a, 0x01, 0x01, 0x00, 0x01, 0xc0, 0x00], b"McDn", &refsrv::perlen(blocks.len()), &blocks]);
+            emit(em, format!("gcc_ccr {}", hex(&refsrv::cat(&[&[0x00, 0x05, 0x00, 0x14, 0x7c, 0x00, 0x01], &refsrv::perlen(tail.len()), &tail]))));
+        }
     }
     // protocols the client does not implement, selected although (or because) a neighbouring one was offered
     for &off in &[3u32, 1, 2, 11, 8] { for &sel in &[8u32, 9, 10, 11, 4, 16, 3, 0x0a] { for auth in 0..2 {
